@@ -28,8 +28,13 @@ typedef struct xcase {
 
 /* characters whose folding / decomposition expands */
 static const uint32_t USYM[] = {'a', 'A', 0xDF /* ss */, 0x149 /* 'n */, 0x390 /* 3 */, 0xFB03 /* ffi */, 0xE9 /* e + acute */, 0x1E9B, 0xAC01 /* hangul LVT */, 0x1F80,
-                                0x301, 0x323, 0x130, 0x3A3, 0x10400, 0x1D160 /* musical, decomposes */, 0x2000B, ' '};
+                                0x301, 0x323, 0x130, 0x3A3, 0x10400, 0x1D160 /* musical, decomposes */, 0x2000B, ' ',
+                                0x110000 /* beyond Unicode: a constraint violation wherever it stands */, 0x7FFFFFFF};
 #define NUSYM ((int)(sizeof USYM / sizeof USYM[0]))
+
+/* local time is judged in several zones: in UTC alone a conversion that forgets the zone is indistinguishable */
+static const char *const XTZ[4] = {"UTC", "EST5", "CET-1", "NPT-5:45"};
+static void x_set_tz(int sel) { setenv("TZ", XTZ[sel & 3], 1); tzset(); }
 
 static const int DM_TIME[] = {0, 1, 25, 26, 27, 40, 100, 119, 120, 121, 200, 4096, 4097};
 
@@ -65,10 +70,11 @@ static int gen_x(cs_t *cs, void *k, const runcfg_t *cfg) {
         c->dmax = (int)cs_range(cs, 0, 40);
         c->a = c->dmax + (int)cs_range(cs, -3, 4);       /* line length */
         if (c->a < 0) c->a = 0;
-        c->b = (int)cs_range(cs, 0, 2);                  /* 0 newline terminated, 1 EOF terminated, 2 empty input */
+        c->b = (int)cs_range(cs, 0, 3);                  /* 0 newline terminated, 1 EOF terminated, 2 empty input, 3 the line starts with a NUL byte and a '\n' sits in front of dest */
         break;
     case XF_GMTIME: case XF_LOCALTIME:
         c->a = (int)cs_range(cs, 0, 15);
+        c->b = (int)cs_range(cs, 0, 3);   /* time zone, see XTZ */
         break;
     case XF_FOPEN: case XF_FREOPEN:
         c->a = (int)cs_range(cs, 0, 4);   /* 0 all valid, 1 streamptr NULL, 2 filename NULL, 3 mode NULL, 4 stream NULL (freopen_s) */
@@ -160,7 +166,7 @@ static void run_x(const xcase_t *c, int guard) {
         fmt_run(&c->f, &XFX, !e->wide, guard);
         O.ran = 1;
         O.dest = XFX.dest; O.dbytes = XFX.dest_bytes; O.dmax_el = XFX.dmax; O.w = e->wide ? 4 : 1;
-        O.is_string = e->sink == SK_BUF; O.usable = e->sink == SK_BUF && XFX.dmax > 0;
+        O.is_string = e->sink == SK_BUF; O.usable = e->sink == SK_BUF && XFX.dmax > 0 && XFX.dmax <= (e->wide ? RSIZE_MAX_WSTR : RSIZE_MAX_STR); /* a long double can print 4900+ characters */
         O.failed = XFX.ret < 0; O.code = XFX.ret < 0 ? -(long)XFX.ret : 0;
         O.slack_promised = e->sink == SK_BUF;
         O.h_count = XFX.h_count; O.h_code = XFX.h_code;
@@ -222,6 +228,7 @@ static void run_x(const xcase_t *c, int guard) {
             time_t *tp = (time_t *)(void *)ar_alloc(guard, PL_END, sizeof(time_t), 0);
             *tp = tval(c->a);
             O.is_string = 1; O.usable = !c->dest_null && c->dmax >= 26 && c->dmax <= 4096;
+            x_set_tz(c->b);
             AR_GUARDED(rc = _ctime_s_chk(c->dest_null ? NULL : (char *)dest, (rsize_t)c->dmax, c->src_null ? NULL : tp, bos));
             if (!c->src_null) { char r[64]; if (*tp >= 0 && *tp <= 313360441200LL && ctime_r(tp, r)) { O.has_ref = 1; snprintf(O.ref, sizeof O.ref, "%s", r); O.ref_len = strlen(r); } }
             break;
@@ -256,9 +263,18 @@ static void run_x(const xcase_t *c, int guard) {
             FILE *in, *saved = stdin;
             char *ret = NULL;
             size_t L = (size_t)c->a < 100 ? (size_t)c->a : 100;
+            unsigned char *pre = NULL;
             for (i = 0; i < L; i++) line[i] = (char)('A' + i % 26);
-            if (c->b == 0) { line[L] = '\n'; line[L + 1] = 'Z'; line[L + 2] = 0; } else line[L] = 0;
+            if (c->b == 0 || c->b == 3) { line[L] = '\n'; line[L + 1] = 'Z'; line[L + 2] = 0; } else line[L] = 0;
             if (c->b == 2) line[0] = 0;
+            if (c->b == 3) { /* an empty string result: nothing in front of dest may be inspected or changed */
+                pre = ar_alloc(guard, PL_END, bytes + 1, 0);
+                pre[0] = '\n';
+                memcpy(pre + 1, dest, bytes);
+                dest = pre + 1; O.dest = dest;
+                in = fmemopen(line, L + 2, "r");
+                line[0] = 0;
+            } else
             in = fmemopen(line, strlen(line) ? strlen(line) : 1, "r");
             if (c->b == 2) { int ch; while ((ch = fgetc(in)) != EOF) {} }
             stdin = in;
@@ -268,7 +284,8 @@ static void run_x(const xcase_t *c, int guard) {
             stdin = saved;
             if (!g_ar_fault.faulted) fclose(in);
             rc = ret ? 0 : (errno ? errno : 0);
-            if (ret && c->b != 2) { O.has_ref = 1; memcpy(O.ref, line, L); O.ref[L] = 0; O.ref_len = L; }
+            if (pre && !g_ar_fault.faulted && pre[0] != '\n') O.canary_off = -1;
+            if (ret && c->b != 2 && c->b != 3) { O.has_ref = 1; memcpy(O.ref, line, L); O.ref[L] = 0; O.ref_len = L; }
             if (!ret && O.h_count == 0) rc = 1; /* plain EOF: a failure indication (NULL) without any constraint violation */
             break;
         }
@@ -276,6 +293,7 @@ static void run_x(const xcase_t *c, int guard) {
             time_t *tp = (time_t *)(void *)ar_alloc(guard, PL_END, sizeof(time_t), 0);
             struct tm *res = NULL, refv;
             *tp = tval(c->a);
+            x_set_tz(c->b);
             O.dmax_el = sizeof(struct tm);
             AR_GUARDED(res = (c->fn == XF_GMTIME) ? gmtime_s(c->src_null ? NULL : tp, c->dest_null ? NULL : (struct tm *)(void *)dest)
                                                   : localtime_s(c->src_null ? NULL : tp, c->dest_null ? NULL : (struct tm *)(void *)dest));
@@ -352,7 +370,7 @@ static const char *x_class(const xcase_t *c) {
     if (c->dest_null) return "null-dest";
     if (c->src_null && (c->fn == XF_ASCTIME || c->fn == XF_CTIME || c->fn == XF_GETENV || c->fn == XF_GMTIME || c->fn == XF_LOCALTIME || c->fn >= XF_WCSFC)) return "null-src";
     if (c->fn >= XF_WCSFC) return c->dmax < 5 ? "dmax<5" : "dmax>=5";
-    if (c->fn == XF_GETS) return c->b == 2 ? "empty-input" : (c->a + 1 > c->dmax ? "line-too-long" : (c->a + 1 == c->dmax ? "line-exact-fit" : "line-fits"));
+    if (c->fn == XF_GETS) return c->b == 3 ? "line-starts-with-nul" : c->b == 2 ? "empty-input" : (c->a + 1 > c->dmax ? "line-too-long" : (c->a + 1 == c->dmax ? "line-exact-fit" : "line-fits"));
     if (c->fn == XF_ASCTIME || c->fn == XF_CTIME) return c->dmax < 26 ? "dmax<26" : (c->dmax < 120 ? "dmax<120" : "dmax>=120");
     if (c->fn == XF_GETENV) return c->b == 2 ? "unset" : (c->a + 1 > c->dmax ? "value-too-long" : "value-fits");
     return "args";
